@@ -117,6 +117,90 @@ def check_cutoff_pure(chk, prog):
     chk.floor(R, n, 8, "call sites of parallel_heuristics predicates")
 
 
+def check_ruleset_siblings(chk, prog):
+    """Database::run_rule_set: the serial arm (function body) and the scoped-parallel arm (closure handed to Scope::spawn)
+    must meet the same obligations per plan."""
+    from .join_common import cross_origins, atom_path
+    R = chk.rule("R-RULESET-SIBLINGS", "Database::run_rule_set: the serial arm and the closure spawned per plan in the scoped-parallel arm perform the same steps per plan: a root node is requested for "
+                 "every atom and installed with insert_node (a missing root skips the plan); a SinglePlan runs its stages; a DecomposedPlan runs every stage block, stops on an empty "
+                 "materialization, installs the block's materialization in binding_info.materializations before the next block, and finally runs the result block; the action buffer is flushed. "
+                 "Each step of the frozen list must occur in both arms, and the installation must lie between the block run and the result-block run")
+    f = prog.need("egglog_core_relations::free_join::Database::run_rule_set")
+    spawned = None
+    for h in prog.children(f):
+        for c in h.calls:
+            if c.p.endswith("Scope::spawn"):
+                for a in h.origins(c.args[1]):
+                    if a[0] == "closure":
+                        g = prog.fns.get(a[1])
+                        if g is not None and any(cc.p.endswith("JoinState::root_node") for cc in g.calls):
+                            spawned = g
+    if spawned is None:
+        chk.missing(R, "closure spawned per plan in run_rule_set (calls JoinState::root_node)")
+        return
+
+    def steps(root, region):
+        out = {}
+        for h in region:
+            for c in h.calls:
+                key = None
+                if c.p.endswith("JoinState::root_node"):
+                    key = "root_node"
+                elif c.p.endswith("BindingInfo::insert_node"):
+                    key = "insert_node"
+                elif c.p.endswith("JoinState::run_join_stages"):
+                    paths = {atom_path(a) for _, a in cross_origins(prog, h, c.args[1]) if atom_path(a)}
+                    if any(p[-1:] == ("stages",) for p in paths):
+                        key = "run:stages"
+                    elif any(p[-1:] == ("result_block",) for p in paths):
+                        key = "run:result_block"
+                    else:
+                        key = "run:block"
+                elif c.p.endswith("DenseIdMap::insert") and any(atom_path(a) and "materializations" in atom_path(a) for _, a in cross_origins(prog, h, c.args[0])):
+                    key = "install-materialization"
+                elif c.p.endswith("::is_empty") and any(a[0] == "call" and atom_path(a) == ("[]",) for _, a in cross_origins(prog, h, c.args[0])):
+                    key = "empty-materialization-test"
+                elif c.p.endswith("ActionBuffer>::flush") or c.p.endswith("ActionBuffer::flush"):
+                    key = "flush"
+                if key:
+                    out.setdefault(key, []).append((h, c))
+        return out
+    serial = steps(f, [f] + [h for h in prog.children(f) if not (h is spawned or h.name.startswith(spawned.name + "::")) and not any(c.p.endswith("Scope::spawn") for c in h.calls)])
+    par = steps(spawned, prog.region(spawned))
+    WANT = ("root_node", "insert_node", "run:stages", "run:block", "empty-materialization-test", "install-materialization", "run:result_block", "flush")
+    for arm, st, root in (("serial", serial, f), ("scoped", par, spawned)):
+        for w in WANT:
+            chk.judge(w in st, R, f"Database::run_rule_set:{arm}:{w}", f"{arm} arm performs step {w}",
+                      f"the {arm} arm of run_rule_set lacks step `{w}` that its sibling arm performs", root.loc)
+        # ordering inside the arm's own function: install between block test and result run; root before any run
+        if all(w in st for w in WANT):
+            inst = [(h, c) for (h, c) in st["install-materialization"] if h is root]
+            res = [(h, c) for (h, c) in st["run:result_block"] if h is root]
+            tst = [(h, c) for (h, c) in st["empty-materialization-test"] if h is root]
+            ok = bool(inst) and bool(res) and bool(tst)
+            for (_, i) in inst:
+                ok = ok and any(r.bb in root.reach(i.bb) for (_, r) in res) and any(root.dominates(t.bb, i.bb) for (_, t) in tst)
+                # the installation happens on the non-empty side of the test
+            rn = [(h, c) for (h, c) in st["root_node"] if h is root]
+            runs = [c for k in ("run:stages", "run:result_block") for (h, c) in st[k] if h is root]
+            ok = ok and bool(rn)
+            # a missing root skips the plan: no run is reachable from the None arm of root_node's result
+            for (_, r) in rn:
+                sw = r.target
+                t = root.term(sw) if sw is not None else None
+                if t and t[0] == "switch":
+                    none = [tb for v, tb in t[2] if v == "0"]
+                    for nb in none:
+                        reach = {nb} | root.reach(nb)
+                        # runs of THIS plan: those not separated by the next plan's root_node
+                        # (the next plan starts at an iterator step that dominates the root request)
+                        nxt = {c.bb for c in root.calls if (c.p.endswith("Iterator>::next") or c.p.endswith("Iterator::next")) and root.dominates(c.bb, r.bb)}
+                        r2 = {nb} | root.reach_avoiding([nb], {r.bb} | nxt)
+                        ok = ok and not any(c.bb in r2 for c in runs)
+            chk.judge(ok, R, f"Database::run_rule_set:{arm}:order", f"{arm} arm: roots before any stage, installation between block run and result block, missing root skips the plan",
+                      f"the {arm} arm of run_rule_set orders its steps differently (materialization installed after the result block, stages run without roots, or a plan with an empty root still runs)", root.loc)
+
+
 def run(chk, prog, tier):
     chk.explanation = EXPLANATION
     chk.assumptions = ["rustc nightly MIR construction", "thread-pool scope semantics are C19's"]
@@ -129,6 +213,7 @@ def run(chk, prog, tier):
     c16.check_stale_count(chk, prog)
     c14.check_siblings(chk, prog)
     check_cutoff_pure(chk, prog)
+    check_ruleset_siblings(chk, prog)
     # serial and parallel index construction / rebuild scans consume every batch alike
     from . import scan_common
     scan_common.check_scan_batches(chk, prog, only=lambda f: "hash_index" in f.name or "table::SortedWritesTable" in f.name or "containers" in f.name, floor=6)
